@@ -1143,6 +1143,7 @@ decl(struct scope *s, struct func *f)
 					error(&tok.loc, "object '%s' with block scope and %s linkage cannot have initializer", name, d->linkage == LINKEXTERN ? "external" : "internal");
 				if (d->defined)
 					error(&tok.loc, "object '%s' redefined", name);
+				d->type = unsharearray(d->type);
 				init = parseinit(s, d->type);
 				hasinit = true;
 			} else if (sc & SCEXTERN) {
